@@ -375,6 +375,14 @@ def rule_timeout_arm(ctx, cfg, F):
             R.ok("poll == 0 -> Errno(EAGAIN)", f.loc(b), cfg)
         else:
             R.violate("%s:poll-zero-not-eagain" % f.path, "the poll-timed-out edge does not construct Errno(EAGAIN): an expired wait would not be reported as Empty", f.path, f.loc(b), config=cfg)
+        # poll < 0: the OS error as it is -- in particular never dressed up as would-block (an interrupted wait is not an expired one)
+        lt = seen.get("lt", [])
+        lt_ok = bool(lt) and all(any(x[0] == "call" and x[1].endswith("UnixError::last") for x in facts) and
+                                 not any(x[0] == "ctor" and x[1].endswith("UnixError::Errno") and (EAGAIN in x[2] or EWOULDBLOCK in x[2]) for x in facts) for facts in lt)
+        if lt_ok:
+            R.ok("poll < 0 -> Errno(last), unchanged", f.loc(b), cfg)
+        else:
+            R.violate("%s:poll-error-not-passed-on" % f.path, "the failed-poll edge does not return UnixError::last() as it is (a failure such as EINTR must not be reported as an expired wait / Empty)", f.path, f.loc(b), config=cfg)
         # poll > 0 must go on to recvmsg
         if "gt" in seen and all(any(x[0] == "call" and x[1] == "libc::recvmsg" for x in facts) for facts in seen["gt"]):
             R.ok("poll > 0 -> recvmsg", f.loc(b), cfg)
@@ -384,6 +392,22 @@ def rule_timeout_arm(ctx, cfg, F):
 
 
 # --------------------------------------------------------------------------- NB-PAIR
+
+def _bit_of(e, mask):
+    """is the bit `mask` set in the value of this expression?  1 / 0 when that follows from constants and the bitwise operators, None when it depends on a run-time value"""
+    c = const_eval(e)
+    if c is not None:
+        return 1 if c & mask else 0
+    if e[0] == "bin" and e[1] in ("BitAnd", "BitOr"):
+        a, b = _bit_of(e[2], mask), _bit_of(e[3], mask)
+        if e[1] == "BitAnd":
+            return 0 if (a == 0 or b == 0) else (1 if a == 1 and b == 1 else None)
+        return 1 if (a == 1 or b == 1) else (0 if a == 0 and b == 0 else None)
+    if e[0] == "un" and e[1] == "Not":
+        a = _bit_of(e[2], mask)
+        return None if a is None else 1 - a
+    return None
+
 
 def rule_nb_pair(ctx, cfg, F):
     R = ctx.rule("NB-PAIR", "every feasible normal path from a successful fcntl(fd, F_SETFL, O_NONBLOCK) to a return passes through fcntl(fd, F_SETFL, flags "
@@ -403,22 +427,33 @@ def rule_nb_pair(ctx, cfg, F):
                 continue
             n += 1
             fdroots = frozenset(r.key() for r in tr.roots_of_operand(t["args"][0]))
-            if flags is None:
-                R.violate("%s:fcntl-flags-not-constant" % f.path, "F_SETFL flags are not a compile-time constant", f.path, f.loc(b), config=cfg)
-            elif flags & O_NONBLOCK:
-                setters[b] = fdroots
-            else:
+            bit = (1 if flags & O_NONBLOCK else 0) if flags is not None else (_bit_of(ex_.of_operand(t["args"][2]), O_NONBLOCK) if len(t["args"]) > 2 else None)
+            # flags computed from F_GETFL: `old & !O_NONBLOCK` certainly clears the bit, `old | O_NONBLOCK` certainly sets it; anything else may leave it set
+            if bit == 0:
                 restorers[b] = fdroots
+            else:
+                setters[b] = fdroots
+        # a descriptor created non-blocking (SOCK_NONBLOCK) starts in that mode
+        for b, t in f.calls():
+            nm_ = strip_generics(callee_name(t))
+            ai = {"libc::socket": 1, "libc::socketpair": 1, "libc::accept4": 3}.get(nm_)
+            if ai is not None and len(t["args"]) > ai and _bit_of(ex_.of_operand(t["args"][ai]), O_NONBLOCK) != 0 and not t["dest"].get("p"):
+                n += 1
+                setters[b] = frozenset(r.key() for r in tr.roots(t["dest"]["l"]))
         if not setters:
             continue
         ex = Explorer(f)
         leaks = {}
+
+        closers = {b: frozenset(r.key() for r in tr.roots_of_operand(t["args"][0])) for b, t in f.calls_to("libc::close")}
 
         def step(b, st, env):
             if b in setters:
                 return ("set", b)
             if b in restorers and st[0] in ("set", "setok") and restorers[b] == setters[st[1]]:
                 return ("clear", None)
+            if b in closers and st[0] in ("set", "setok") and closers[b] == setters[st[1]]:
+                return ("clear", None)          # the descriptor is gone: its mode no longer matters
             if f.term(b)["t"] == "return" and st[0] in ("set", "setok"):
                 return ("LEAK", st[1])
             return st
@@ -438,8 +473,22 @@ def rule_nb_pair(ctx, cfg, F):
                             return ("clear", None) if failed else ("setok", sb)
             return st
 
+        created = {b for b in setters if strip_generics(callee_name(f.term(b))) in ("libc::socket", "libc::socketpair", "libc::accept4")}
+
         def at_return(b, st, path):
             if st[0] == "LEAK":
+                if st[1] in created:
+                    # a descriptor made here matters only where it is handed to the caller: on an Err exit its owner is dropped with it
+                    last = None
+                    for pb in path:
+                        for s_ in f.stmts(pb):
+                            if s_["s"] == "assign" and s_["lhs"]["l"] == 0 and not s_["lhs"].get("p") and s_["rv"]["r"] == "agg":
+                                last = s_["rv"]["kind"].get("variant")
+                        tt = f.term(pb)
+                        if tt["t"] == "call" and tt["dest"]["l"] == 0 and "from_residual" in strip_generics(tt.get("callee") or ""):
+                            last = "Err"
+                    if last == "Err":
+                        return
                 leaks.setdefault(st[1], path)
         ex.walk(0, ("clear", None), step, at_return=at_return, edge=edge)
         for sb in setters:
@@ -580,6 +629,28 @@ def _exit_calls(f, path):
 RECV_NAMES = ("recv", "try_recv", "try_recv_timeout")
 
 
+def _feasible_pass(f, targets):
+    """(blocks on feasible paths from the entry, does every feasible path to a return pass one of `targets`) -- branch facts followed, so the arms of a
+    `match mode` that an inlined helper carries for its other callers do not count"""
+    ex = Explorer(f)
+    feas = set()
+    miss = []
+    targets = set(targets)
+
+    def step(b, st, env):
+        feas.add(b)
+        return True if b in targets else st
+
+    def at_return(b, st, path):
+        if not st:
+            miss.append(path)
+    try:
+        ex.walk(0, False, step, at_return=at_return)
+    except RuntimeError:
+        return set(f.live_blocks()), True
+    return feas, not miss
+
+
 def rule_mode_table(ctx, cfg, F):
     R = ctx.rule("MODE-TABLE", "each of recv / try_recv / try_recv_timeout, at the ipc layer and at the platform layer, calls its own counterpart one layer down: "
                  "blocking, non-blocking and timeout(d) with d the caller's parameter")
@@ -626,8 +697,14 @@ def rule_mode_table(ctx, cfg, F):
         elif base.startswith("platform::inprocess::OsIpcReceiver::"):
             n += 1
             want = {"recv": "crossbeam_channel::Receiver::recv", "try_recv": "crossbeam_channel::Receiver::try_recv", "try_recv_timeout": "crossbeam_channel::Receiver::recv_timeout"}[short]
-            calls = [(b, t) for b, t in f.calls() if strip_generics(callee_name(t)).startswith("crossbeam_channel::Receiver::")]
-            if len(calls) == 1 and strip_generics(callee_name(calls[0][1])) == want:
+            RECEIVES = ("recv", "try_recv", "recv_timeout", "recv_deadline", "iter", "try_iter")
+            allc = [(b, t) for b, t in f.calls() if strip_generics(callee_name(t)).startswith("crossbeam_channel::Receiver::") and strip_generics(callee_name(t)).split("::")[-1] in RECEIVES]
+            feas, every = _feasible_pass(f, [b for b, t in allc if strip_generics(callee_name(t)) == want])
+            calls = [(b, t) for b, t in allc if b in feas]
+            if len(calls) == 1 and strip_generics(callee_name(calls[0][1])) == want and not every:
+                R.violate("%s:returns-without-receiving" % base, "%s has a path that returns without calling %s: an answer is made up from something other than the receive itself" % (base, want.split("::")[-1]),
+                          f.path, f.loc(calls[0][0]), config=cfg)
+            elif len(calls) == 1 and strip_generics(callee_name(calls[0][1])) == want:
                 ok = True
                 if short == "try_recv_timeout":
                     ok = any(r.kind == "param" and r.id == 2 for r in tr.roots_of_operand(calls[0][1]["args"][1]))
